@@ -173,12 +173,13 @@ fn check_insert(enc: &'static Encoding, content: &str, html: bool) -> Option<Str
 }
 
 /// meta charset: at most one switch, only for later tokens, sink notified in between.
-fn check_meta(enc0: &'static Encoding, label: &str, second_label: Option<&str>, cuts: &[usize]) -> Option<String> {
+fn check_meta(enc0: &'static Encoding, label: &str, second_label: Option<&str>, cuts: &[usize], scan_mode: bool) -> Option<String> {
     let unit0: Vec<u8> = vec![0xE9];
     let labels: Vec<&str> = std::iter::once(label).chain(second_label).collect();
     // document: T0 <meta l1> T1 [<meta l2> T2]
     let mut d = b"A".to_vec();
     d.extend_from_slice(&unit0);
+    #[allow(unused_mut)]
     let mut texts = vec![(0usize, d.len())];
     let mut meta_ends = vec![];
     for (i, l) in labels.iter().enumerate() {
@@ -206,11 +207,18 @@ fn check_meta(enc0: &'static Encoding, label: &str, second_label: Option<&str>, 
         }
         in_effect.push(cur);
     }
-    let p = Prepared::new(Cfg { adjust_charset: true, ..Cfg::with(vec![HSpec::obs(HKind::DocText, ""), HSpec::with_ops(HKind::DocEnd, "", vec![Op::Append("\u{416}".into(), true)])]).enc(enc0.name()) }).ok()?;
+    // scan_mode: nothing after the meta tag is captured (the parser stays in tag-scan mode), so
+    // the switch must be flushed by the meta tag itself, not by the next captured token
+    let first = if scan_mode { HSpec::obs(HKind::Element, "p[id]") } else { HSpec::obs(HKind::DocText, "") };
+    let p = Prepared::new(Cfg { adjust_charset: true, ..Cfg::with(vec![first, HSpec::with_ops(HKind::DocEnd, "", vec![Op::Append("\u{416}".into(), true)])]).enc(enc0.name()) }).ok()?;
     let chunks = split(&d, cuts);
     let rr = run(&p, &chunks, true);
     if !rr.all_ok() {
         return Some("run failed".into());
+    }
+    if scan_mode {
+        // pass-through: texts are not captured
+        texts.clear();
     }
     let node = |r: (usize, usize)| -> String { rr.events.iter().filter_map(|e| if let Ev::Text { text, loc, .. } = e { if loc.0 >= r.0 && loc.1 <= r.1 { Some(text.as_str()) } else { None } } else { None }).collect() };
     for (i, t) in texts.iter().enumerate() {
@@ -232,13 +240,25 @@ fn check_meta(enc0: &'static Encoding, label: &str, second_label: Option<&str>, 
             // everything up to the end of the switching meta tag: text re-encoded in enc0, tags raw
             let mut want_before = vec![];
             let mut pos = 0;
-            for t in texts.iter().take(mi + 1) {
+            if scan_mode {
+                // every sink call made after write() returned for the chunk containing the end
+                // of the meta tag must already follow the notification: at every later call
+                // boundary the bytes emitted before set_encoding are at most the meta tag's end
+                if before.len() > meta_ends[mi] || before != d[..before.len()] {
+                    return Some(format!("scan mode: sink was notified of the new encoding after {} bytes, the switching meta tag ends at {}", before.len(), meta_ends[mi]));
+                }
+                // … and not before the meta tag's own bytes
+                if before.len() < meta_ends[mi] {
+                    return Some(format!("scan mode: sink was notified of the new encoding after only {} bytes, the switching meta tag ends at {}", before.len(), meta_ends[mi]));
+                }
+            }
+            for t in texts.iter().take(if scan_mode { 0 } else { mi + 1 }) {
                 want_before.extend_from_slice(&d[pos..t.0]);
                 want_before.extend_from_slice(&enc0.encode(&r_enc(enc0, &d[t.0..t.1])).0);
                 pos = t.1;
             }
             want_before.extend_from_slice(&d[pos..meta_ends[mi]]);
-            if before != want_before {
+            if !scan_mode && before != want_before {
                 return Some(format!("sink was notified of the new encoding after {} bytes, expected right after the meta tag ({} bytes)", before.len(), want_before.len()));
             }
             let tail = e1.encode("\u{416}").0.into_owned();
@@ -272,7 +292,7 @@ pub fn replay(case: &Value) -> Option<String> {
         "insert" => check_insert(enc, case["content"].as_str()?, case["html"].as_bool()?),
         "meta" => {
             let cuts: Vec<usize> = serde_json::from_value(case["cuts"].clone()).ok()?;
-            check_meta(enc, case["label"].as_str()?, case["label2"].as_str(), &cuts)
+            check_meta(enc, case["label"].as_str()?, case["label2"].as_str(), &cuts, case["scan_mode"].as_bool().unwrap_or(false))
         }
         _ => None,
     }
@@ -414,16 +434,18 @@ pub fn run_check(ctx: &Ctx) -> i32 {
                     if cuts.iter().any(|c| *c >= real_len) {
                         continue;
                     }
-                    if let Some(msg) = check_meta(enc0, l, l2, &cuts) {
-                        let case = json!({"kind": "meta", "encoding": enc0.name(), "label": l, "label2": l2, "cuts": cuts});
-                        let c2 = case.clone();
-                        ctx.violation(msg, case, &|| replay(&c2));
+                    for scan_mode in [false, true] {
+                        if let Some(msg) = check_meta(enc0, l, l2, &cuts, scan_mode) {
+                            let case = json!({"kind": "meta", "encoding": enc0.name(), "label": l, "label2": l2, "cuts": cuts, "scan_mode": scan_mode});
+                            let c2 = case.clone();
+                            ctx.violation(msg, case, &|| replay(&c2));
+                        }
                     }
                 }
             }
         }
     }
-    ctx.level_done("(c) 3 initial encodings x 7 meta charset labels x {single, followed by a second declaration} x every cut");
+    ctx.level_done("(c) 3 initial encodings x 7 meta charset labels x {single, followed by a second declaration} x {text captured, tag-scan mode} x every cut");
     ctx.finish(
         "model_checking",
         RULE,
